@@ -57,7 +57,7 @@ func fCond(r *openfgav1.RelationReference) *openfgav1.RelationReference {
 }
 
 const fFirstNonThis = 16 // index of the first leaf that is not a direct assignment
-const fNumLeaves = 24
+const fNumLeaves = 25
 
 // fLeaves: the 22 leaf forms of relation x; y and z are the next relations (cyclically).
 func fLeaves(i, n int) []fLeaf {
@@ -92,6 +92,8 @@ func fLeaves(i, n int) []fLeaf {
 		{"[user:*, employee:*]", fThis(), R(fWild("user"), fWild("employee"))},
 		// leaf 23: a direct assignment without any type restriction (JSON only): an operand that reaches nothing
 		{"[]", fThis(), nil},
+		// leaf 24: a condition that is named like the marker of "no condition"
+		{"[user, user with none]", fThis(), R(fRef("user"), &openfgav1.RelationReference{Type: "user", Condition: NoCond})},
 	}
 }
 
@@ -366,7 +368,10 @@ func (c *cmpCtx) compareNode(sn *sNode, rn *WeightedAuthorizationModelNode) {
 		if c.mode == 10 || c.mode == 0 {
 			zzverif.Assert(re.edgeType == se.kind, "edge-kind-in-source-order")
 			zzverif.Assert(re.tuplesetRelation == se.tupleset, "ttu-edge-labelled-type#tupleset")
-			zzverif.Assert(strings.Join(re.conditions, ",") == strings.Join(se.conds, ","), "edge-conditions-ordered-set")
+			if strings.Contains(strings.Join(se.conds, ","), ","+NoCond) || strings.HasPrefix(strings.Join(se.conds, ","), NoCond) {
+				zzverif.Class("edge-conditions-ordered-set", "condition named like the unconditioned marker")
+			}
+			zzverif.Assert(strings.Join(re.conditions, ",") == strings.ReplaceAll(strings.Join(se.conds, ","), "\x00", ""), "edge-conditions-ordered-set")
 			zzverif.Assert(re.from == rn, "edge-from")
 			if se.to.kind != sOp {
 				zzverif.Assert(re.to != nil && re.to.uniqueLabel == se.to.label, "edge-target")
